@@ -355,7 +355,13 @@ impl SwarmDriver {
         let pretty_key = PrettyPrintRecordKey::from(&peer_record.record.key).into_owned();
 
         if let Entry::Occupied(mut entry) = self.pending_get_record.entry(query_id) {
-            let (_key, _senders, result_map, cfg) = entry.get_mut();
+            let (key, _senders, result_map, cfg) = entry.get_mut();
+
+            // A reply only counts for the key this query asked for.
+            if peer_record.record.key != *key {
+                warn!("For task {query_id:?}, ignoring a copy from {peer_id:?} that carries another record key {pretty_key:?}");
+                return Ok(());
+            }
 
             if !cfg.expected_holders.is_empty() {
                 if cfg.expected_holders.remove(&peer_id) {
